@@ -404,3 +404,45 @@ func C16LateRegistrations() {
 	}
 	sym.Reach("late-registrations-done")
 }
+
+// C16MainObjectAndReAdd: (a) the service's MAIN object (id 1) is terminated remotely: its hook runs
+// once and the other objects of the service stay reachable; (b) an actor that was added, terminated
+// remotely and added AGAIN is terminated remotely a second time: it goes away again (hook count 2,
+// later calls refused).
+func C16MainObjectAndReAdd() {
+	srv, _, _, a := zzAuthedServer()
+	root := newZZObj()
+	service, err := srv.NewService("objects", root.front)
+	sym.Assert(err == nil, "service-registered")
+	if err != nil {
+		return
+	}
+	sid := service.ServiceID()
+	other := newZZObj()
+	oid, err := service.Add(other.front)
+	sym.Assert(err == nil, "add-ok")
+	if sym.Bool("terminate-the-main-object") {
+		zzRoundTrip(a, zzFrame(net.Call, sid, 1, 3, 60, zzLE32(1)))
+		sym.Quiesce()
+		sym.Assert(atomic.LoadInt32(&root.terminated) == 1, "main-object/termination-hook-exactly-once")
+		out := zzRoundTrip(a, zzFrame(net.Call, sid, oid, 1000, 61, nil))
+		sym.Assert(len(out) == 1 && out[0].Header.Type == net.Reply, "main-object/other-object-affected")
+		out = zzRoundTrip(a, zzFrame(net.Call, sid, 1, 1000, 62, nil))
+		sym.Assert(len(out) == 1 && out[0].Header.Type == net.Error, "main-object/terminated-object-still-answers")
+	} else {
+		for life := 1; life <= 2; life++ {
+			zzRoundTrip(a, zzFrame(net.Call, sid, oid, 3, uint32(70+life), zzLE32(oid)))
+			sym.Quiesce()
+			sym.Assert(atomic.LoadInt32(&other.terminated) == int32(life), "re-add/termination-hook-once-per-life")
+			before := atomic.LoadInt32(&other.calls)
+			out := zzRoundTrip(a, zzFrame(net.Call, sid, oid, 1000, uint32(80+life), nil))
+			sym.Assert(len(out) == 1 && out[0].Header.Type == net.Error, "re-add/terminated-object-still-answers")
+			sym.Assert(atomic.LoadInt32(&other.calls) == before, "re-add/terminated-object-still-invoked")
+			if life == 1 {
+				oid, err = service.Add(other.front) // the same actor is put back into service
+				sym.Assert(err == nil, "re-add/add-again-ok")
+			}
+		}
+	}
+	sym.Reach("main-and-readd-done")
+}
